@@ -239,11 +239,11 @@ Section Proofs.
     - inversion Hw as [[H1 H2]]; subst. rewrite (IHt ps eq_refl Hv). reflexivity.
   Qed.
 
-  Lemma check_trees_roots fuel used :
-    check_trees B blen parse st fuel = Some ([], used) ->
+  Lemma walk_roots_ok fuel used :
+    walk_roots B blen parse st fuel = Some ([], used) ->
     forall r, In r (st_roots st) -> exists ps, walk fuel r = Some ([], ps) /\ incl ps used.
   Proof.
-    unfold check_trees. revert used. induction (st_roots st) as [|x l IH]; intros used H r Hr; [contradiction|].
+    unfold walk_roots. revert used. induction (st_roots st) as [|x l IH]; intros used H r Hr; [contradiction|].
     simpl in H.
     match type of H with context [fold_right ?F ?A l] => destruct (fold_right F A l) as [[es ps']|] eqn:Ef end; [|discriminate].
     destruct (walk fuel x) as [[e1 p1]|] eqn:Ew; [|discriminate].
@@ -254,16 +254,38 @@ Section Proofs.
       apply incl_appr. assumption.
   Qed.
 
+  Lemma root_packs_in r p b : In r (st_roots st) -> lookup BTree r = Some (p, b) -> In p (root_packs B st).
+  Proof.
+    intros Hr Hl. unfold root_packs. apply in_flat_map. exists r. split; [assumption|].
+    rewrite Hl. left. reflexivity.
+  Qed.
+
+  Lemma check_trees_roots fuel used :
+    check_trees B blen parse st fuel = Some ([], used) ->
+    forall r, In r (st_roots st) ->
+      (exists ps, walk fuel r = Some ([], ps) /\ incl ps used) /\
+      (forall p b, lookup BTree r = Some (p, b) -> In p used).
+  Proof.
+    unfold check_trees. destruct (walk_roots B blen parse st fuel) as [[es ps]|] eqn:E; [|discriminate].
+    intro H. inversion H; subst. intros r Hr. split.
+    - destruct (walk_roots_ok fuel ps E r Hr) as [ps' [Hw Hi]]. exists ps'. split; [assumption|].
+      apply incl_appr. assumption.
+    - intros p b Hl. apply in_or_app. left. eapply root_packs_in; eauto.
+  Qed.
+
   (* MAIN: a clean full check implies that every snapshot restores completely and correctly:
-     every tree below every root is fetched, decrypts, decodes and parses; every tree except the
-     snapshot roots and every file chunk hashes to the id under which it is referenced *)
+     every tree below every root (the root included) is fetched, decrypts, decodes, parses and
+     hashes to the id it is referenced by; so does every file chunk *)
   Theorem check_clean_implies_restorable_lemma fuel :
     check fuel = Some [] ->
-    forall r, In r (st_roots st) -> correct lookup false fuel r = Some true.
+    forall r, In r (st_roots st) -> correct lookup true fuel r = Some true.
   Proof.
     intros Hc r Hr. destruct (check_clean_verified fuel Hc) as [_ [used [Ht Hv]]].
-    destruct (check_trees_roots fuel used Ht r Hr) as [ps [Hw Hi]].
-    eapply walk_correct; eauto. discriminate.
+    destruct (check_trees_roots fuel used Ht r Hr) as [[ps [Hw Hi]] Hroot].
+    apply (walk_correct fuel r ps true Hw); [intros p Hp; apply Hv, Hi, Hp|].
+    intros _ p b d Hl Hrd. assert (Hvp : verified p) by (apply Hv; eapply Hroot; eauto).
+    destruct (lookup_in BTree r p b Hl) as [Hin Hid].
+    destruct (Hvp BTree b Hin) as [d' [Hr' Hh']]. rewrite Hrd in Hr'. inversion Hr'; subst. assumption.
   Qed.
 
 End Proofs.
